@@ -322,6 +322,10 @@ def r80(F):
                         cmps.append((rv["op"], pl["l"], bb))
             errs = {bb for bb, j, pl, rv, m in fn.assigns() if pl["l"] == 0 and not pl["p"] and rv["k"] == "agg" and rv.get("variant") == "Err"}
             ops = sorted(c[0] for c in cmps)
+            if not cmps:
+                # `arg_length.cmp(&arity)` matched on Ordering, or a helper: another spelling of the comparison
+                o_cmp = [cb for cb, ct in fn.calls() if callee(ct).endswith("::cmp") and any(("field", "bindings") in o.at(a, cb) for a in ct["args"])]
+                need(not o_cmp, "op_fcall compares the argument count with the arity through Ord::cmp: the Less / Greater edges are not read by this rule")
             ok = ops in (["Gt", "Lt"], ["Ne"])
             for op, l, bb in cmps:
                 for sb, ft, tt in util.bool_switches(fn, l):
@@ -437,6 +441,15 @@ def r82(F):
                 fb = {l[1] for l in o.at(rv["ops"][1], b) if l[0] == "field"}
                 start_ok = ("0" in fa or "flds" in fa) and ("1" in fb or "flds_pos_list" in fb or "pos_list" in fb) or start_ok
             ok = start_ok and paired and not bad_ops and len(pa) == len(pb)
+            if not ok and not pa and not pb and not bad_ops:
+                # built as a pair by the library: the two halves of one `unzip()` have the same length by construction
+                uz_a = {(c, bb) for k_, c, bb in [l for l in o.at(rv["ops"][0], b) if l[0] == "call"] if c.endswith("::unzip")}
+                uz_b = {(c, bb) for k_, c, bb in [l for l in o.at(rv["ops"][1], b) if l[0] == "call"] if c.endswith("::unzip")}
+                if uz_a and uz_a == uz_b and len(uz_a) == 1:
+                    r.inst("%s:%s" % (name.split("::")[-1].rstrip(">"), rv["variant"]), fn.where(b), True, "the two halves of one unzip()")
+                    continue
+                need(start_ok, "%s: the two vectors of this %s are built in a way this rule does not read (no pushes, not fresh/cloned together)"
+                     % (name, rv["variant"]))
             r.inst("%s:%s" % (name.split("::")[-1].rstrip(">"), rv["variant"]), fn.where(b), ok,
                    "%d paired pushes%s" % (len(pa), ", %d merge_field_into_tuple" % len(merges) if merges else "") if ok else
                    "value vector and position vector of this %s are not grown together (pushes %d / %d, other ops %s): an index into the position "
